@@ -238,10 +238,14 @@ def run_check(mod, tier: str, seed: int, jobs: int, cap_s: Optional[float] = Non
     if errors:
         for idx, err in errors[:3]:
             sys.stderr.write(f"HARNESS ERROR in partition {idx} of {prop}:\n{err}\n")
-        print(f"HARNESS-ERROR property={prop} partitions_failed={len(errors)}")
-        _write_evidence(mod, tier, seed, desc, total, samples, outcomes, capped, len(items), len(results), t0,
-                        violations=0, note="harness error")
-        return 2
+        if not total.violations:
+            print(f"HARNESS-ERROR property={prop} partitions_failed={len(errors)}")
+            _write_evidence(mod, tier, seed, desc, total, samples, outcomes, capped, len(items), len(results), t0,
+                            violations=0, note="harness error")
+            return 2
+        # other partitions DID observe violations: those are confirmed and reported below (a confirmed violation stands on its
+        # own); the run is never reported as clean - if nothing can be confirmed it ends as a harness error
+        sys.stderr.write(f"  note: {len(errors)} partitions ended with a harness error; the violations observed by the other partitions follow\n")
 
     # --- violations -------------------------------------------------------------------------------------------------
     findings = load_known_findings()
@@ -304,6 +308,9 @@ def run_check(mod, tier: str, seed: int, jobs: int, cap_s: Optional[float] = Non
             print(f"HARNESS-ERROR property={prop} non-reproducible violation replay={path} "
                   f"(same-process={ok_here}, fresh-process={ok_fresh})")
             rc = max(rc, 2)
+    if errors and rc == 0:
+        print(f"HARNESS-ERROR property={prop} partitions_failed={len(errors)}")
+        rc = 2
     _write_evidence(mod, tier, seed, desc, total, samples, outcomes, capped, len(items), len(results), t0,
                     violations=n_new, known=len(seen_known))
     wall = time.time() - t0
